@@ -449,8 +449,83 @@ def run_post_hoc(w) -> None:
         loaded.unload()
 
 
+SAME_NAME_SOURCE = '''
+import dataclasses
+import icontract
+
+CREATED = []
+
+
+class Meta(icontract.DBCMeta):
+    """Records every class object which the contract meta-class creates (the ground truth for the announcements)."""
+
+    def __new__(mcs, name, bases, namespace, **kwargs):
+        cls = super().__new__(mcs, name, bases, namespace, **kwargs)
+        CREATED.append(cls)
+        return cls
+
+
+def make(limit):
+    @icontract.invariant(lambda self: self.balance >= limit)
+    class Account(metaclass=Meta):
+        def __init__(self):
+            self.balance = limit
+
+    return Account
+
+
+FIRST, SECOND, THIRD = make(0), make(10), make(20)
+
+
+class Plain(metaclass=Meta):
+    pass
+
+
+PLAIN_1 = Plain
+
+
+class Plain(metaclass=Meta):  # the name is bound again (an interactive session, a reloaded module)
+    pass
+
+
+@dataclasses.dataclass(slots=True)
+class Slotted(metaclass=Meta):
+    v: int = 0
+
+
+REBUILT = type(PLAIN_1)(PLAIN_1.__name__, PLAIN_1.__bases__, dict(PLAIN_1.__dict__))
+'''
+
+
+def run_same_names(w) -> None:
+    """Distinct classes that share module and qualified name (a class factory called several times, a name bound again, a class
+    created anew by dataclass(slots=True) or by hand): every class object the meta-class creates is announced exactly once."""
+    install_hook()
+    del ANNOUNCED[:]
+    loaded = prog.load_source(SAME_NAME_SOURCE, w.scratch())
+    try:
+        created = list(loaded.module.CREATED)
+        w.distinct("same_name_groups", tuple(sorted({c.__qualname__ for c in created})))
+        for cls_obj in created:
+            n = sum(1 for c in ANNOUNCED if c is cls_obj)
+            w.count("classes_announced", n)
+            w.count("same_name_classes_checked")
+            w.case(("same-name", cls_obj.__qualname__, created.index(cls_obj)))
+            if n != 1:
+                w.violation("C18/class-announced-{}-times".format(n if n < 2 else "several"),
+                            "class #{} named {} (one of {} classes of that name) was announced {} times to the registration hook".format(
+                                created.index(cls_obj), cls_obj.__qualname__, sum(1 for c in created if c.__qualname__ == cls_obj.__qualname__), n),
+                            {"same_names": cls_obj.__qualname__})
+        if len(created) < 8:
+            w.mark_inconclusive("the same-name program created only {} classes".format(len(created)))
+    finally:
+        loaded.unload()
+
+
 def run(w) -> None:
     install_hook()
+    if w.shard == 1 % w.nshards:
+        run_same_names(w)
     for meta, spec in c04.specs(w):
         w.count("programs")
         run_spec(w, spec, meta)
@@ -463,5 +538,8 @@ def replay(case, w) -> None:
     install_hook()
     if "post_hoc" in case:
         run_post_hoc(w)
+        return
+    if "same_names" in case:
+        run_same_names(w)
         return
     run_spec(w, case["prog"], tuple(case.get("meta", ())))
